@@ -107,6 +107,13 @@ def generate_code(prog: Program, eng=None) -> str:
         else:
             params_str = _factor_out_pi(cmd.op.p)
 
+        # post-selection and dark counts of measurements are keyword arguments
+        for option in ("select", "dark_counts"):
+            value = getattr(cmd.op, option, None)
+            if value is not None:
+                value = value.tolist() if isinstance(value, np.ndarray) else value
+                params_str += (", " if params_str else "") + f"{option}={value}"
+
         modes = [f"q[{r.ind}]" for r in cmd.reg]
         if len(modes) == 1:
             modes_str = ", ".join(modes)
